@@ -207,6 +207,9 @@ def run(ck):
     # reference = Python's own evaluation of the expression text over the variable values (explicit sequences only:
     # ranges are numpy arrays), in the documented step order.
     n_or += typed_parameter_oracle(ck, rng, 40 if thorough else 12)
+    # direct oracle (4): an element that raises on ONE step.  "One element per sweep step": whatever the exception class, the
+    # node must fail (the run raises); it must never return a collection / probe list with fewer elements than steps.
+    n_or += failing_step_oracle(ck, rng, 30 if thorough else 10)
     ck.notes["direct_oracle_runs"] = n_or
     ck.cov["trusted_base"] = c01.TRUSTED
 
@@ -260,6 +263,55 @@ def typed_parameter_oracle(ck, rng, n):
                           "step %s: the wrapped probe received %r, the expression values are %r (p=%r q=%r)" %
                           (first, list(got)[first] if first is not None and first < len(list(got)) else list(got), want[first] if first is not None else want, ep, eq),
                           dict(replay, got=list(got)))
+    return runs
+
+
+def failing_step_oracle(ck, rng, n):
+    from semantiva.context_processors import ContextType
+    from semantiva.pipeline import Payload, Pipeline
+    from harness.lib import components as C
+    runs = 0
+    classes = sorted(C.RAISE_CLASSES)
+    for trial in range(n):
+        kind = ("source", "operation", "probe")[trial % 3]
+        cls = classes[(trial // 3 + rng.randrange(len(classes))) % len(classes)] if trial >= 6 else ("StopIteration", "ValueError")[trial // 3]
+        steps = rng.randint(2, 6)
+        values = [float(i + 1) for i in range(steps)]
+        bad = values[rng.randrange(steps)]
+        sweep = {"parameters": {"t": "t", "bad": "b", "exc": "c"},
+                 "variables": {"t": list(values), "b": [bad], "c": [cls]}, "mode": "combinatorial"}
+        if kind != "probe":
+            sweep["collection"] = "FloatDataCollection"
+        if kind == "source":
+            cfg = [{"processor": C.VerifRaiseAtSource, "derive": {"parameter_sweep": sweep}}]
+        elif kind == "operation":
+            cfg = [{"processor": "FloatValueDataSource", "parameters": {"value": 2.0}},
+                   {"processor": C.VerifRaiseAtOperation, "derive": {"parameter_sweep": sweep}}]
+        else:
+            cfg = [{"processor": "FloatValueDataSource", "parameters": {"value": 2.0}},
+                   {"processor": C.VerifRaiseAtProbe, "context_key": "out", "derive": {"parameter_sweep": sweep}}]
+        replay = {"kind": "failing-step", "element": kind, "exception": cls, "values": values, "fails_at": bad}
+        runs += 1
+        try:
+            res = Pipeline(cfg).process(Payload(None, ContextType({})))
+        except BaseException as ex:  # noqa - the documented outcome: the node fails
+            if type(ex).__name__ != cls and not isinstance(ex, C.RAISE_CLASSES[cls]):
+                # a different exception class is tolerated only if it chains the original one
+                chain, seen = ex, 0
+                while chain is not None and seen < 6 and not isinstance(chain, C.RAISE_CLASSES[cls]):
+                    chain, seen = chain.__cause__ or chain.__context__, seen + 1
+                if chain is None or not isinstance(chain, C.RAISE_CLASSES[cls]):
+                    ck.fail_input("C03:failing-step:different-exception:%s" % kind,
+                                  "element raised %s at step value %r, the run raised %s: %s" % (cls, bad, type(ex).__name__, str(ex)[:120]), replay)
+            continue
+        got = res.context.get_value("out") if kind == "probe" else getattr(res.data, "data", res.data)
+        try:
+            k = len(list(got))
+        except Exception:  # noqa
+            k = None
+        ck.fail_input("C03:failing-step:sweep-returned-normally:%s:%s" % (kind, cls),
+                      "the wrapped %s raised %s on the step t=%r of %d steps; the sweep returned normally with %s elements" % (kind, cls, bad, steps, k),
+                      dict(replay, returned_elements=k))
     return runs
 
 
